@@ -40,7 +40,25 @@ Definition c10_small3 : list flagdef :=       (* naïveté-ñ "d"; b int; résum
   [ hlp; cfg; ([110;97;195;175;118;101;116;195;169;45;195;177], KString, [100]); ([98], KInt, []);
     ([114;195;169;115;117;109;195;169], KBool, []); ([119], KUint, []) ].
 
-Definition c10_tables : list (list flagdef) := [c10_flags; c10_small1; c10_small2; c10_small3].
+(** the nested-struct zoo: outer fields name(string,"def") verbose(bool) count(int,"3") and one nested group of
+    k = 1..6 inner fields i1..ik (kinds cycling string, bool, int), the group placed first / in the middle / last;
+    the same table serves the one-level and the two-level nesting (flag names do not carry the group path) *)
+Definition inner_flag (j : N) : flagdef :=
+  ([105; 48 + j], (if j mod 3 =? 1 then KString else if j mod 3 =? 2 then KBool else KInt), []).
+Definition inner_flags (k : nat) : list flagdef := map (fun j => inner_flag (N.of_nat j)) (seq 1 k).
+Definition o_name : flagdef := ([110;97;109;101], KString, [100;101;102]).
+Definition o_verbose : flagdef := ([118;101;114;98;111;115;101], KBool, []).
+Definition o_count : flagdef := ([99;111;117;110;116], KInt, [51]).
+Definition zoo_table (k : nat) (pos : nat) : list flagdef :=
+  hlp :: cfg :: match pos with
+                | O => inner_flags k ++ [o_name; o_verbose; o_count]
+                | S O => [o_name] ++ inner_flags k ++ [o_verbose; o_count]
+                | _ => [o_name; o_verbose; o_count] ++ inner_flags k
+                end.
+Definition zoo_tables : list (list flagdef) :=
+  flat_map (fun k => map (zoo_table k) [0; 1; 2]%nat) [1; 2; 3; 4; 5; 6]%nat.
+
+Definition c10_tables : list (list flagdef) := [c10_flags; c10_small1; c10_small2; c10_small3] ++ zoo_tables.
 
 Definition table_of (flags : list flagdef) : flagtable :=
   map (fun f => (fst (fst f), is_bool_kind (snd (fst f)))) flags.
